@@ -12,7 +12,7 @@ PROP = dict(
     rule="programs: the D22 reproducer + (quick 40 / thorough 240) generated allocation-heavy programs (string "
          "building, arrays and nested arrays with push/pop/index-assign, struct field updates, closures, enum payloads, "
          "garbage loops); the collector is driven by hand through the verif_gc hook, one loop iteration per increment. "
-         "Also 'mover' programs (each of the four barriered store paths with the destination scanned before the source) "
+         "Also 'mover' programs (twelve kinds: the barriered store paths with the destination scanned before the source — array push, index store, field store, channel —, freshly allocated wrappers (variant, struct, array, closure, tuple) around a value that has just left the heap, and heap strings living only in a string-operand register of a multi-step comparison / concat_strings) "
          "validated from 40/160 cycle start points, and programs with tasks (10 quick / 60 thorough; every green thread's own "
          "heap and collector validated, a new thread's first state checked against the empty state). "
          "Validated runs (2 quick / 4 thorough schedules per program: cycle start at a random VM step with k increments "
